@@ -14,9 +14,9 @@ def skiplist_obls(prefix):
     out = []
     # (heights of the inserts in order, reader group, mid-insert real reader, tier)
     tuples = [("", 0, 0, "quick"), ("", 1, 0, "quick"), ("", 2, 0, "quick"), ("", 3, 0, "quick")]
-    for hs in ("1", "2", "3", "11", "12", "21", "22", "13", "31", "121", "212", "221"):
+    for hs in ("1", "2", "11", "12", "21", "22", "121", "212"):
         tuples.append((hs, 0, 0, "quick"))
-    for hs in ("23", "32", "33", "111", "112", "122", "211", "222", "123", "321", "313", "1212", "2121"):
+    for hs in ("3", "13", "31", "221", "23", "32", "33", "111", "112", "122", "211", "222", "123", "321", "313", "1212", "2121"):
         tuples.append((hs, 0, 0, "thorough"))
     for hs in ("2", "12", "21"):
         for rd in (1, 2, 3):
@@ -107,6 +107,9 @@ def cache_obls(prefix):
         tuples.append((op, sh, 1, 0, "thorough"))
     for (op, sh, api, env, tier) in tuples:
         e = len(sh)
+        slow = (op == INS) or (op == PRU and sh == "12")
+        if slow:
+            tier = "thorough"   # insert: 12-40 M clauses, 2-8 min per query (see DESIGN note in the final report)
         defs = {"VP_OP": op, "VP_E": e}
         if e:
             defs["VP_SHAPE"] = int(sh)
@@ -131,7 +134,7 @@ def cache_obls(prefix):
                                   "lru_table_resize.2": 1, "lru_shard_insert.0": e + 2, "lru_shard_prune.0": e + 2,
                                   "lru_table_find.0": e + 2},
                        replace_calls=(["ldb_lru_shard:vp_lru_shard"] if api else []),
-                       flags=["--slice-formula"], tier=tier, timeout=300,
+                       flags=["--slice-formula"], tier=tier, timeout=(1200 if slow else 300), mem_gb=(20 if slow else 12),
                        functions=CACHE_FUNCS[op] + ([CACHE_API[op], "ldb_lru_hash"] if api else []),
                        desc="real util/cache.c %s from an arbitrary well-formed shard: shard mutex taken once before and released after every access to table/lists/refs/usage (state == ghost at lock, at unlock, on return), no other or nested lock, nothing held on return; effect == cache semantics on the ghost; representation invariant; entries freed exactly when the last reference goes, after one deleter call%s" % (
                            (CACHE_API[op] + "()") if api else ("lru_shard_" + CACHE_OPS[op] + "()"),
@@ -141,5 +144,67 @@ def cache_obls(prefix):
     return out
 
 
-OBLIGATIONS = skiplist_obls("c") + cache_obls("b")
-META = {"level": "other"}
+def dbimpl_obls(prefix):
+    """C10.a: lock discipline of db_impl.c, by the existing monitor harnesses (ghost db mutex: ldb_mutex_assert_held
+    sites re-enabled as assertions, shared fields compared with ghost copies at every lock, havocked while unlocked)."""
+    out = []
+    try:
+        from obl.dbimpl_readers import reader_obls, GET, SNAPSHOT, RELEASE, ITER, SAMPLE
+        keep = {(GET, 0, 0, 0, 2, 2), (SNAPSHOT, 0, 0, 0, 2, 2), (RELEASE, 0, 0, 0, 2, 2), (ITER, 0, 0, 0, 2, 2), (SAMPLE, 0, 0, 0, 2, 0)}
+        out += reader_obls(prefix, want=lambda t: t[:6] in keep)
+    except ImportError:
+        pass
+    try:
+        from obl.dbimpl_common import write_obls
+        out += write_obls(prefix, quick=((0, 1, 0, -1),), thorough=())
+    except ImportError:
+        pass
+    return out
+
+
+OBLIGATIONS = dbimpl_obls("a") + cache_obls("b") + skiplist_obls("c")
+
+META = {
+    "level": "other",
+    "level_text": "Sequential lock-discipline and memory-order monitors, decided by bounded model checking (CBMC 6.11) of the real translation units. "
+                  "NO thread is created and NO interleaving is explored: CBMC 6.11 refuses multi-threaded programs that share pointers. "
+                  "What is decided is the discipline from which race freedom follows: (a) db_impl.c reads and writes its shared fields only with the "
+                  "db mutex held (ghost mutex, ghost copies compared at every lock, interference while unlocked); (b) every operation of util/cache.c "
+                  "takes the shard mutex before and releases it after every access to the shard's table, lists, reference counts and usage, on every path, "
+                  "and frees an entry exactly when its last reference goes; (c) skiplist.c publishes a node only with release stores made after the node "
+                  "is complete for the level it becomes reachable on, readers follow pointers only with acquire loads, max_height is accessed only through "
+                  "the atomic macros, and the list seen between any two stores of an insert is a consistent sorted list containing all earlier keys.",
+    "level_note": "Trusted, not checked: the step from 'every access to monitored shared state is ordered by the lock or by a release/acquire pair' to "
+                  "'no data race' (C11 memory model); the hardware and the compiler's implementation of the atomic built-ins and of pthread mutexes; the atomic-access "
+                  "hook (src/util/atomic.h under CHJJ_LCDB_VERIF turns each ldb_atomic_* access into a monitor call followed by a plain access); "
+                  "CBMC's semantics; the models listed. Races on state that is NOT reached through the monitored accessors are outside: a plain (non-macro) "
+                  "access to a next pointer or to arena/usage counters is only noticed where an event count or a value change gives it away "
+                  "(max_height stores, pointer loads per iterator step), not in general.",
+    "explanation": "A data race needs two unordered conflicting accesses. Instead of exploring schedules, each unit is run once, sequentially, with monitors "
+                   "below it that check the ordering discipline at every lock, unlock and atomic access: the ghost mutex says whether protected state may be touched, "
+                   "ghost copies detect writes outside the critical section, the environment (another thread) acts while the mutex is free, and the atomic-event "
+                   "stream of the real skip list is checked against the publication protocol (initialise, then release-store; acquire-load, then read), with a "
+                   "reference traversal of all levels at every store to show that a lock-free reader running at that moment sees a well-formed list.",
+    "bounds": [
+        "skip list: 0..3 inserts (thorough: 4) of distinct symbolic 1-byte keys in arbitrary key order, node heights concrete per query in 1..3, every height combination listed in the queries; one symbolic reader target; real reader run between two stores of the last insert at a symbolically chosen store",
+        "cache: one operation from a shard with 0..2 (thorough: 3) pre-existing entries whose class (cached+unreferenced / cached+in use / erased but referenced) is concrete per query; keys 0..3, hashes symbolic incl. collisions, charges 0..255, capacity 300 (eviction on both sides of the limit), 4 hash buckets, no table resize; lru_shard_insert queries are in the thorough tier only (2-8 min each)",
+        "db_impl: one API call (get, snapshot, release, iterator, read sample, write with one follower) from an arbitrary well-formed state with interference at every lock/unlock, as in C08",
+    ],
+    "outside": [
+        "every real interleaving; weak-memory behaviour of the hardware; torn or reordered plain accesses",
+        "state not reached through the monitored accessors (plain accesses that bypass ldb_atomic_* or the mutex-protected functions)",
+        "reads of protected cache state before the lock is taken are detected only through the 'another thread erased/holds an entry first' variants",
+        "arena usage counter, has_imm / shutting_down orders (DESIGN C10.c tail, C08.c) and thread_pool.c (C09.c): not built in this round",
+        "table-cache / block-cache clients of cache.c, snapshots and files being retired: covered only through C13 / the cache obligations here, not end to end",
+        "hash table resize of cache.c (more than 4 entries per shard)",
+    ],
+    "models": [
+        "harness/C10/skiplist.c: arena = one typed full-height node object per skip node (so CBMC's array-bounds check is off: --no-bounds-check; the monitor checks next[i] indices against the allocated height itself); random height = concrete per query; comparator = first key byte; ldb_verif_atomic_event = the monitor",
+        "harness/C10/cache.c: ldb_mutex_* = ghost flags; ldb_hash = symbolic table with the shard bits fixed; ldb_malloc/ldb_free = typed malloc/free of one lru_handle_t plus ghost bookkeeping; ldb_lru_shard replaced by a constant-returning model that asserts it equals the real expression (API queries); deleter = recording stub",
+        "harness/dbimpl/world.h ghost sync layer and the stubs of harness/dbimpl/readers.c, write.c (see C08)",
+    ],
+    "assumptions": [
+        "source hook 1507baa (CHJJ_LCDB_VERIF) reports every ldb_atomic_load/store[_ptr]/fetch_add/fetch_sub before performing it as a plain access",
+    ],
+    "design_ref": "DESIGN.md section 6 C10 (a, b, c); section 5 H1; section 11.4",
+}
